@@ -66,6 +66,11 @@ func init() {
 					r.Unresolved("no else-if on an error value found")
 				}
 			}},
+			{ID: "C17.R17", Floor: 3, Doc: "a connection a function obtains is closed, returned, stored or handed on on every path (except where obtaining it failed)", Run: func(p *Program, r *Report) {
+				if connLeaks(p, r) == 0 {
+					r.Unresolved("no function obtains a connection together with an error")
+				}
+			}},
 			{ID: "C17.R16", Floor: 10, Doc: "a field that is accessed through sync/atomic anywhere is accessed through sync/atomic everywhere (outside the construction of the object)", Run: func(p *Program, r *Report) {
 				if atomicDiscipline(p, r) == 0 {
 					r.Unresolved("no field is accessed through sync/atomic")
